@@ -230,47 +230,111 @@ theorem rawFilterExtractC_eq (p : Bytes) : rawFilterExtractC p = .ok (rawFilterE
     | some l => rfl
     | none => exact rfNullC_eq p
 
-theorem looksEthC_eq (p : Bytes) : looksEthC p = .ok (looksEth p) := by
-  unfold looksEthC looksEth be16
-  have b12 := byte_lt p 12
-  have b13 := byte_lt p 13
-  by_cases h : 14 < p.length
-  · simp only [h, if_true, idx_ok p 12 (by omega), idx_ok p 13 (by omega), ok_bind, pure_eq,
-      decide_true, Bool.true_and, Nat.reduceAdd]
-    by_cases ha : byte p 12 = 0x08
-    · by_cases hb : byte p 13 = 0x00
-      · simp [ha, hb]
-      · have : ¬ (byte p 12 * 256 + byte p 13 = 2048) := by omega
-        have : ¬ (byte p 12 * 256 + byte p 13 = 34525) := by omega
-        simp [ha, hb, *]; omega
-    · by_cases hc : byte p 12 = 0x86
-      · by_cases hd : byte p 13 = 0xDD
-        · have : byte p 12 * 256 + byte p 13 = 34525 := by omega
-          simp [ha, hc, hd, this]
-        · have : ¬ (byte p 12 * 256 + byte p 13 = 2048) := by omega
-          have : ¬ (byte p 12 * 256 + byte p 13 = 34525) := by omega
-          simp [ha, hc, hd, *]; omega
-      · have : ¬ (byte p 12 * 256 + byte p 13 = 2048) := by omega
-        have : ¬ (byte p 12 * 256 + byte p 13 = 34525) := by omega
-        simp [ha, hc, *]
-  · simp [h]
+theorem locateIpC_eq (p : Bytes) : locateIpC p = .ok (locateIp p) := by
+  unfold locateIpC locateIp locEth locRaw locNull
+  by_cases h14 : 14 ≤ p.length
+  · simp only [h14, if_true, be16At_ok p 12 13 (by omega) (by omega), ok_bind, pure_eq,
+      show ¬ p.length < 14 by omega, if_false, be16, Nat.reduceAdd]
+    by_cases e4 : byte p 12 * 256 + byte p 13 = 0x0800 ∧ 34 ≤ p.length
+    · simp [e4]
+    · by_cases e6 : byte p 12 * 256 + byte p 13 = 0x86DD ∧ 54 ≤ p.length
+      · simp [e4, e6]
+      · simp only [e4, e6, if_false, ok_bind]
+        by_cases h20 : 20 ≤ p.length
+        · simp only [h20, if_true, idx_ok p 0 (by omega), ok_bind, pure_eq,
+            show ¬ p.length < 20 by omega, if_false]
+          by_cases r4 : byte p 0 / 16 = 4
+          · simp [r4]
+          · by_cases r6 : byte p 0 / 16 = 6 ∧ 40 ≤ p.length
+            · simp [r4, r6]
+            · simp only [r4, r6, if_false, ok_bind]
+              by_cases h24 : 24 ≤ p.length
+              · simp only [h24, if_true, idx_ok p 0 (by omega), idx_ok p 1 (by omega),
+                  idx_ok p 4 (by omega), ok_bind, pure_eq]
+                by_cases h0 : byte p 0 = 0x1e
+                · by_cases h1 : byte p 1 = 0
+                  · simp only [h0, h1, if_true, ok_bind, show ¬ p.length < 24 by omega, ne_eq,
+                      not_true_eq_false, or_self, if_false]
+                    split <;> simp_all
+                    split <;> simp_all
+                  · simp [h0, h1]
+                · simp [h0]
+              · have : p.length < 24 := by omega
+                simp [h24, this]
+        · have h20' : p.length < 20 := by omega
+          have h24 : ¬ 24 ≤ p.length := by omega
+          have : p.length < 24 := by omega
+          simp [h20, h20', h24, this]
+  · have a : p.length < 14 := by omega
+    have b : p.length < 20 := by omega
+    have c : p.length < 24 := by omega
+    have b' : ¬ 20 ≤ p.length := by omega
+    have c' : ¬ 24 ≤ p.length := by omega
+    simp [h14, a, b, c, b', c']
+
+/-- what `locate_ip` guarantees about the frame's length (so `&packet[ip_start..]` cannot fault) -/
+theorem locateIp_len (p : Bytes) (off : Nat) (ver : IpVer) (h : locateIp p = some (off, ver)) :
+    off + 20 ≤ p.length ∧ (ver = .v6 → off + 40 ≤ p.length) := by
+  have key : ∀ r : Option (Nat × IpVer), r = some (off, ver) →
+      (r = locEth p ∨ r = locRaw p ∨ r = locNull p) →
+      off + 20 ≤ p.length ∧ (ver = .v6 → off + 40 ≤ p.length) := by
+    intro r hr hc
+    subst hr
+    rcases hc with hc | hc | hc
+    · unfold locEth at hc
+      split at hc; · simp at hc
+      split at hc
+      · simp only [Option.some.injEq, Prod.mk.injEq] at hc; obtain ⟨rfl, rfl⟩ := hc
+        exact ⟨by omega, by simp⟩
+      · split at hc
+        · simp only [Option.some.injEq, Prod.mk.injEq] at hc; obtain ⟨rfl, rfl⟩ := hc
+          exact ⟨by omega, fun _ => by omega⟩
+        · simp at hc
+    · unfold locRaw at hc
+      split at hc; · simp at hc
+      split at hc
+      · simp only [Option.some.injEq, Prod.mk.injEq] at hc; obtain ⟨rfl, rfl⟩ := hc
+        exact ⟨by omega, by simp⟩
+      · split at hc
+        · simp only [Option.some.injEq, Prod.mk.injEq] at hc; obtain ⟨rfl, rfl⟩ := hc
+          exact ⟨by omega, fun _ => by omega⟩
+        · simp at hc
+    · unfold locNull at hc
+      split at hc; · simp at hc
+      split at hc
+      · simp only [Option.some.injEq, Prod.mk.injEq] at hc; obtain ⟨rfl, rfl⟩ := hc
+        exact ⟨by omega, by simp⟩
+      · split at hc
+        · simp only [Option.some.injEq, Prod.mk.injEq] at hc; obtain ⟨rfl, rfl⟩ := hc
+          exact ⟨by omega, fun _ => by omega⟩
+        · simp at hc
+  unfold locateIp at h
+  split at h
+  · rename_i r hr; exact key _ h (Or.inl (by rw [hr, h]))
+  · split at h
+    · rename_i r hr; exact key _ h (Or.inr (Or.inl (by rw [hr, h])))
+    · exact key _ rfl (Or.inr (Or.inr h.symm))
 
 theorem hashInputTcpC_eq (p : Bytes) : hashInputTcpC p = .ok (hashInputTcp p) := by
-  unfold hashInputTcpC hashInputTcp ipStart
-  simp only [looksEthC_eq, ok_bind]
-  generalize (if looksEth p = true then 14 else 0) = off
-  by_cases h : p.length < off + 20
-  · simp [h]
-  · have hd : (p.drop off).length = p.length - off := by simp
-    simp only [h, if_false, from_ok p off (by omega), ok_bind, idx_ok (p.drop off) 0 (by omega)]
-    split
-    · split
+  unfold hashInputTcpC hashInputTcp
+  simp only [locateIpC_eq, ok_bind]
+  cases hl : locateIp p with
+  | none => rfl
+  | some r =>
+    obtain ⟨off, ver⟩ := r
+    obtain ⟨hlen, hlen6⟩ := locateIp_len p off ver hl
+    have hd : (p.drop off).length = p.length - off := by simp
+    cases ver with
+    | v4 =>
+      simp only [from_ok p off (by omega), ok_bind]
+      split
       · simp [range_ok (p.drop off) 12 16 (by omega) (by omega)]
       · rfl
-    · split
-      · split
-        · simp [range_ok (p.drop off) 8 24 (by omega) (by omega)]
-        · rfl
+    | v6 =>
+      have hlen6 := hlen6 rfl
+      simp only [from_ok p off (by omega), ok_bind]
+      split
+      · simp [range_ok (p.drop off) 8 24 (by omega) (by omega)]
       · rfl
 
 /-- total counterpart of `v4FlowC` -/
@@ -348,39 +412,46 @@ theorem hashV6FlowHttpC_eq (ip : Bytes) : hashV6FlowHttpC ip = .ok (hashV6FlowHt
       · simp [h, h6, hl]
 
 theorem hashInputHttpC_eq (p : Bytes) : hashInputHttpC p = .ok (hashInputHttp p) := by
-  unfold hashInputHttpC hashInputHttp ipStart
-  simp only [looksEthC_eq, ok_bind]
-  generalize (if looksEth p = true then 14 else 0) = off
-  by_cases h : p.length < off + 40
-  · simp [h]
-  · have hd : (p.drop off).length = p.length - off := by simp
-    simp only [h, if_false, from_ok p off (by omega), ok_bind, idx_ok (p.drop off) 0 (by omega),
-      hashV4FlowHttpC_eq, hashV6FlowHttpC_eq]
-    split
-    · rfl
-    · split <;> rfl
+  unfold hashInputHttpC hashInputHttp
+  simp only [locateIpC_eq, ok_bind]
+  cases hl : locateIp p with
+  | none => rfl
+  | some r =>
+    obtain ⟨off, ver⟩ := r
+    simp only
+    by_cases h : p.length < off + 40
+    · simp [h]
+    · simp only [h, if_false, from_ok p off (by omega), ok_bind]
+      cases ver with
+      | v4 => exact hashV4FlowHttpC_eq _
+      | v6 => exact hashV6FlowHttpC_eq _
 
 theorem hashInputTlsC_eq (p : Bytes) : hashInputTlsC p = .ok (hashInputTls p) := by
-  unfold hashInputTlsC hashInputTls ipStart
-  simp only [looksEthC_eq, ok_bind]
-  generalize (if looksEth p = true then 14 else 0) = off
-  by_cases h : p.length < off + 40
-  · simp [h]
-  · have hd : (p.drop off).length = p.length - off := by simp
-    simp only [h, if_false, from_ok p off (by omega), ok_bind, idx_ok (p.drop off) 0 (by omega),
-      v4FlowC_eq, v6FlowC_eq]
-    generalize p.drop off = ip
-    split
-    · unfold v4FlowT hashV4FlowTls
-      by_cases a : ip.length < 20
-      · simp [a]
-      · by_cases b : byte ip 9 ≠ 6
-        · simp [a, b]
-        · by_cases c : ip.length < v4PortOff ip + 4
-          · simp [a, b, c]
-          · simp [a, b, c]
-    · split
-      · unfold v6FlowT hashV6FlowTls
+  unfold hashInputTlsC hashInputTls
+  simp only [locateIpC_eq, ok_bind]
+  cases hl : locateIp p with
+  | none => rfl
+  | some r =>
+    obtain ⟨off, ver⟩ := r
+    simp only
+    by_cases h : p.length < off + 40
+    · simp [h]
+    · simp only [h, if_false, from_ok p off (by omega), ok_bind, v4FlowC_eq, v6FlowC_eq]
+      generalize p.drop off = ip
+      cases ver with
+      | v4 =>
+        simp only
+        unfold v4FlowT hashV4FlowTls
+        by_cases a : ip.length < 20
+        · simp [a]
+        · by_cases b : byte ip 9 ≠ 6
+          · simp [a, b]
+          · by_cases c : ip.length < v4PortOff ip + 4
+            · simp [a, b, c]
+            · simp [a, b, c]
+      | v6 =>
+        simp only
+        unfold v6FlowT hashV6FlowTls
         by_cases a : ip.length < 40
         · simp [a]
         · by_cases b : byte ip 6 ≠ 6
@@ -388,5 +459,4 @@ theorem hashInputTlsC_eq (p : Bytes) : hashInputTlsC p = .ok (hashInputTls p) :=
           · by_cases c : ip.length < 44
             · simp [a, b, c]
             · simp [a, b, c]
-      · rfl
 end Huginn.WireChecked
